@@ -172,7 +172,13 @@ RULE = ('every descriptor the real loader exports (ESTA + manufacturer, GET/SET 
         'load data/rdm again and sweep all descriptors x lengths 0-47 with the long-lived deserializer against '
         'a fresh one (key sweep); `look` cases are histories of RootPidStore::ManufacturerStore / GetDescriptor '
         '(by value, by name, with known / unknown / repeated manufacturer ids) on the one long-lived store with '
-        'the identity of every result compared (key h) - detection of pointer-keyed caches depends on heap address reuse and is '
+        'the identity of every result compared (key h), also through the long-lived PidStoreHelper (GetDescriptor, '
+        'SupportedPids); every decode/re-encode case additionally goes through PidStoreHelper::DeserializeMessage / '
+        'SerializeMessage (key helper); `load k` loads data/rdm through 9 spellings of its path (trailing /, //, '
+        '/./, relative, empty = default location) and compares a digest of the whole table (keys ld, dg); '
+        '`conc T N`: T threads with their own deserializer/serializer decode a fixed work list N times and count '
+        'results differing from the single-threaded answers (key conc; races are detected probabilistically, a '
+        'correct tree cannot fail) - detection of pointer-keyed caches depends on heap address reuse and is '
         'therefore probabilistic; non-trivial = payload accepted and '
         're-encoded to a non-empty byte string; distinct = distinct model output line')
 ASSUMPTIONS = ['operator new does not fail',
@@ -196,7 +202,7 @@ TRUSTED = ['modelled rather than verified: Descriptor.h/.cpp size functions, Des
            'GroupSizeCalculator is modelled (gcalc) and compared on every case with the payload length as token '
            'count (key gs, internal); PidStoreHelper, StringMessageBuilder and the message printers are outside '
            'the decode/re-encode path and not covered']
-SPEC_KEYS = ['h', 'r', 'ser', 'same', 'again', 'shared', 'ldes', 'sweep', 'n', 'cc', 'specfail', 'ndesc', 'npids', 'load']
+SPEC_KEYS = ['h', 'ld', 'dg', 'conc', 'items', 'helper', 'r', 'ser', 'same', 'again', 'shared', 'ldes', 'sweep', 'n', 'cc', 'specfail', 'ndesc', 'npids', 'load']
 # not property-determined (internal): d (descriptor text), cs (calculator state), gs (GroupSizeCalculator state),
 # m (message text), cap (m_buffer_size)
 INTERNAL_KEYS = []
@@ -376,6 +382,18 @@ def gen_cases(rng, tier):
     keeps ONE long-lived MessageDeserializer (and MessageSerializer); cases are dealt round-robin to <= 16
     harness processes, so the reloads are spread so that every process gets some, early and late"""
     inner = list(_gen_cases(rng, tier))
+    quick = tier == 'quick'
+    # the data directory through 9 spellings of its path; T threads x N rounds of concurrent decoding
+    extra = ['load %d' % k for k in range(9)] * (2 if quick else 4)
+    extra += ['conc %d %d' % (t, n) for t in (2, 4) for n in ((30, 60) if quick else (30, 60, 120, 250))] * (8 if quick else 16)
+    rng.shuffle(extra)
+    every = max(1, len(inner) // len(extra))
+    merged = []
+    for i, c in enumerate(inner):
+        if i % every == 3 % every and extra:
+            merged.append(extra.pop())
+        merged.append(c)
+    inner = merged + extra
     n_reload = 48 if tier == 'quick' else 160
     step = max(1, len(inner) // n_reload)
     k = 0
@@ -426,7 +444,8 @@ def _gen_lookups(rng, ents, n):
             if k < 0.3: ops.append('M%d' % m)
             elif k < 0.6: ops.append('V%d:%d' % (pid, m))
             elif k < 0.8: ops.append('N%s:%d' % (hexname(nm), m))
-            elif k < 0.87: ops.append('v%d' % pid)
+            elif k < 0.84: ops.append('v%d' % pid)
+            elif k < 0.88: ops.append(rng.choice(['HV%d:%d' % (pid, m), 'HN%s:%d' % (hexname(nm), m), 'HS%d' % m]))
             elif k < 0.94: ops.append('n%s' % hexname(nm))
             else: ops.append('E')
         yield 'look ' + ','.join(ops)
